@@ -2057,10 +2057,28 @@ def _index_loops(block: tuple) -> tuple:
             return st
         return ("for", k, d, Sigma(raw_subst={v: ("s", d, k)}).apply(body), st[4])
 
+    def values_loop(st):
+        """``for k in d: ... d[k] ...`` with the key used for nothing but reading its entry (d left alone in the loop) is the loop
+        over the entries ``for x in d.values(): ... x ...``"""
+        var, it, body = st[1], st[2], st[3]
+        if not (isinstance(var, tuple) and var[:1] == ("v",) and pure_path(it)):
+            return st
+        elem = ("s", it, var)
+        if not contains(body, elem) or contains(Sigma(raw_subst={elem: ("k", "elem")}).apply(body), var):
+            return st
+        for x in atoms_of(body, lambda y: y[0] in ("set", "aug", "del", "mset", "for") and len(y) >= 3):
+            tgts = x[1] if x[0] == "mset" else ((x[2],) if x[0] == "aug" else (x[1],))
+            for t in tgts:
+                if contains(t, it) or t == var:
+                    return st
+        if atoms_of(body, lambda y: y[0] == "c" and isinstance(y[1], tuple) and y[1][:1] == ("a",) and y[1][1] == it):
+            return st
+        return ("for", var, ("c", ("a", it, "values"), (), ()), Sigma(raw_subst={elem: var}).apply(body), st[4])
+
     def conv(st):
         if not (isinstance(st, tuple) and st and st[0] == "for" and len(st) == 5 and not st[4]):
             return st
-        st = items_loop(st)
+        st = values_loop(items_loop(st))
         var, it, body = st[1], st[2], st[3]
         if not (isinstance(var, tuple) and var[:1] == ("v",) and isinstance(it, tuple) and it[:2] == ("c", ("g", "range")) and not it[3]):
             return st
